@@ -408,7 +408,8 @@ func check(c Case) (string, string, outcome) {
 		allSame := true
 		for i, s := range c.Steps {
 			res := e.apply(s)
-			if !sameRes(res, dryRes[i]) {
+			if !sameRes(res, dryRes[i]) || (firedAt < 0 && e.fired() != "" && !res.OK()) {
+				// a different result, or the operation hit by the fault failed (its effects may then legitimately be missing)
 				allSame = false
 			}
 			if res.Hung {
